@@ -159,3 +159,129 @@ theorem rounding_keeps_whole_floors (x : ℝ) (r k : ℤ) (hk : (k : ℝ) ≤ x)
   have h2 : (k : ℝ) < (r : ℝ) + 1 := by linarith
   have h3 : k < r + 1 := by exact_mod_cast h2
   omega
+
+/-! ## prefix sums along a list sorted by score (pyvc.sums.cumsum_sorted) and monotone sequences (C17)
+    proved with the help of an independent session working only from the statements -/
+
+
+/-- sums of non-negative weights over a filtered list are non-negative -/
+theorem filter_snd_sum_nonneg (t : List (ℝ × ℝ)) (hw : ∀ p ∈ t, 0 ≤ p.2) (q : ℝ × ℝ → Bool) :
+    0 ≤ ((t.filter q).map Prod.snd).sum := by
+  apply List.sum_nonneg
+  intro y hy
+  rw [List.mem_map] at hy
+  obtain ⟨p, hp, rfl⟩ := hy
+  exact hw p (List.mem_of_mem_filter hp)
+
+theorem prefix_ge_aux (l : List (ℝ × ℝ)) (hs : l.Pairwise (fun a b => a.1 ≤ b.1))
+    (hw : ∀ p ∈ l, 0 ≤ p.2) (x : ℝ) (k : ℕ) (hk : k < l.length) (hx : (l[k]).1 ≤ x) :
+    ((l.take (k + 1)).map Prod.snd).sum ≤ ((l.filter (fun p => p.1 ≤ x)).map Prod.snd).sum := by
+  induction l generalizing k with
+  | nil => simp at hk
+  | cons a t ih =>
+    rw [List.pairwise_cons] at hs
+    obtain ⟨ha, hs'⟩ := hs
+    have hwt : ∀ p ∈ t, 0 ≤ p.2 := fun p hp => hw p (List.mem_cons_of_mem _ hp)
+    have hfn := filter_snd_sum_nonneg t hwt (fun p => p.1 ≤ x)
+    cases k with
+    | zero =>
+      simp only [List.getElem_cons_zero] at hx
+      have hf : (a :: t).filter (fun p => p.1 ≤ x) = a :: t.filter (fun p => p.1 ≤ x) := by
+        rw [List.filter_cons_of_pos]; simpa using hx
+      rw [hf]
+      simpa using hfn
+    | succ k =>
+      simp only [List.getElem_cons_succ] at hx
+      have hk' : k < t.length := by simpa using hk
+      have hax : a.1 ≤ x := le_trans (ha _ (List.getElem_mem hk')) hx
+      have hf : (a :: t).filter (fun p => p.1 ≤ x) = a :: t.filter (fun p => p.1 ≤ x) := by
+        rw [List.filter_cons_of_pos]; simpa using hax
+      rw [hf, List.take_succ_cons]
+      simp only [List.map_cons, List.sum_cons]
+      have := ih hs' hwt k hk' hx
+      linarith
+
+/-- prefix_ge: along a list sorted by score, the running total up to position k is at most the
+    total weight of all entries whose score is <= the k-th score (weights non-negative). -/
+theorem prefix_ge (l : List (ℝ × ℝ)) (hs : l.Pairwise (fun a b => a.1 ≤ b.1)) (hw : ∀ p ∈ l, 0 ≤ p.2)
+    (k : ℕ) (hk : k < l.length) :
+    ((l.take (k + 1)).map Prod.snd).sum ≤ ((l.filter (fun p => p.1 ≤ (l[k]).1)).map Prod.snd).sum :=
+  prefix_ge_aux l hs hw _ k hk le_rfl
+
+/-- running totals of non-negative weights are monotone in the cut position -/
+theorem take_sum_mono (w : List ℝ) (hw : ∀ y ∈ w, 0 ≤ y) (m n : ℕ) (hmn : m ≤ n) :
+    (w.take m).sum ≤ (w.take n).sum := by
+  have h1 : w.take m = (w.take n).take m := by
+    rw [List.take_take, min_eq_left hmn]
+  rw [h1]
+  apply List.Sublist.sum_le_sum (List.take_sublist _ _)
+  intro y hy
+  exact hw y (List.mem_of_mem_take hy)
+
+/-- prefix_step: a later position with a strictly larger score has a running total that contains
+    the earlier running total plus its own weight. -/
+theorem prefix_step (l : List (ℝ × ℝ)) (hs : l.Pairwise (fun a b => a.1 ≤ b.1)) (hw : ∀ p ∈ l, 0 ≤ p.2)
+    (i j : ℕ) (hi : i < l.length) (hj : j < l.length) (h : (l[i]).1 < (l[j]).1) :
+    ((l.take (i + 1)).map Prod.snd).sum + (l[j]).2 ≤ ((l.take (j + 1)).map Prod.snd).sum := by
+  have hij : i < j := by
+    by_contra hcon
+    rw [not_lt] at hcon
+    rcases Nat.lt_or_eq_of_le hcon with hlt | heq
+    · have := List.pairwise_iff_getElem.mp hs j i hj hi hlt
+      linarith
+    · subst heq
+      exact lt_irrefl _ h
+  have hw' : ∀ y ∈ l.map Prod.snd, 0 ≤ y := by
+    intro y hy
+    rw [List.mem_map] at hy
+    obtain ⟨p, hp, rfl⟩ := hy
+    exact hw p hp
+  have hjl : j < (l.map Prod.snd).length := by simpa using hj
+  have e1 : ((l.take (j + 1)).map Prod.snd).sum = ((l.map Prod.snd).take j).sum + (l[j]).2 := by
+    rw [List.map_take, List.sum_take_succ _ _ hjl]
+    simp
+  have e2 := take_sum_mono (l.map Prod.snd) hw' (i + 1) j hij
+  rw [e1, List.map_take]
+  linarith
+
+/-- prefix_last_tie: every score x that occurs has a position k holding x at which the running
+    total equals the total weight of all entries with score <= x (the last of the tied positions). -/
+theorem prefix_last_tie (l : List (ℝ × ℝ)) (hs : l.Pairwise (fun a b => a.1 ≤ b.1)) (x : ℝ)
+    (hx : ∃ p ∈ l, p.1 = x) :
+    ∃ k, ∃ hk : k < l.length, (l[k]).1 = x ∧
+      ((l.take (k + 1)).map Prod.snd).sum = ((l.filter (fun p => p.1 ≤ x)).map Prod.snd).sum := by
+  induction l with
+  | nil => obtain ⟨p, hp, _⟩ := hx; simp at hp
+  | cons a t ih =>
+    rw [List.pairwise_cons] at hs
+    obtain ⟨ha, hs'⟩ := hs
+    by_cases ht : ∃ p ∈ t, p.1 = x
+    · obtain ⟨k, hk, hkx, hsum⟩ := ih hs' ht
+      obtain ⟨p, hp, hpx⟩ := ht
+      have hax : a.1 ≤ x := hpx ▸ ha p hp
+      have hf : (a :: t).filter (fun p => p.1 ≤ x) = a :: t.filter (fun p => p.1 ≤ x) := by
+        rw [List.filter_cons_of_pos]; simpa using hax
+      refine ⟨k + 1, by simpa using hk, by simpa using hkx, ?_⟩
+      rw [hf, List.take_succ_cons]
+      simp only [List.map_cons, List.sum_cons]
+      rw [hsum]
+    · have hax : a.1 = x := by
+        obtain ⟨p, hp, hpx⟩ := hx
+        rcases List.mem_cons.mp hp with rfl | hpt
+        · exact hpx
+        · exact absurd ⟨p, hpt, hpx⟩ ht
+      have hft : t.filter (fun p => p.1 ≤ x) = [] := by
+        rw [List.filter_eq_nil_iff]
+        intro p hp hpx
+        have hpx' : p.1 ≤ x := by simpa using hpx
+        have h1 : x ≤ p.1 := hax ▸ ha p hp
+        exact ht ⟨p, hp, le_antisymm hpx' h1⟩
+      have hf : (a :: t).filter (fun p => p.1 ≤ x) = [a] := by
+        rw [List.filter_cons_of_pos, hft]; simpa using hax.le
+      refine ⟨0, by simp, by simpa using hax, ?_⟩
+      rw [hf]
+      simp
+
+/-- mono_of_succ: a sequence that never decreases from one index to the next is monotone. -/
+theorem mono_of_succ (a : ℕ → ℝ) (h : ∀ i, a i ≤ a (i + 1)) : ∀ i j, i ≤ j → a i ≤ a j :=
+  fun _ _ hij => monotone_nat_of_le_succ h hij
